@@ -155,6 +155,9 @@ func (t *Taint) propagate(v ssa.Value) {
 				if _, isLen := t.lenOf[v]; isLen {
 					// comparison of the length of a delimiter-carrying string
 					if c, ok := other.(*ssa.Const); ok && c.Value != nil {
+						if lenEmptinessTest(x, v, c) {
+							continue // len(x) == 0 and its spellings: the emptiness test x == "" (no record is empty)
+						}
 						// against a constant: classification by size; off by one with the delimiter
 						t.hit("compare", u, "length of the record (delimiter included) compared with a constant", path)
 					} else {
@@ -577,6 +580,36 @@ func (t *Taint) firstOfSplit(ia *ssa.IndexAddr, v ssa.Value) bool {
 				}
 			}
 		}
+	}
+	return false
+}
+
+// lenEmptinessTest: the comparison cmp of the length value l with the
+// constant c is one of the spellings of "the string is (not) empty":
+// l == 0, l != 0, l > 0, l <= 0, l < 1, l >= 1 (and mirrored).
+func lenEmptinessTest(cmp *ssa.BinOp, l ssa.Value, c *ssa.Const) bool {
+	n, ok := constant.Int64Val(constant.ToInt(c.Value))
+	if !ok || c.Value.Kind() != constant.Int {
+		return false
+	}
+	op := cmp.Op
+	if cmp.Y == l && cmp.X != l { // c OP l  ==  l OP' c
+		switch op {
+		case token.LSS:
+			op = token.GTR
+		case token.GTR:
+			op = token.LSS
+		case token.LEQ:
+			op = token.GEQ
+		case token.GEQ:
+			op = token.LEQ
+		}
+	}
+	switch op {
+	case token.EQL, token.NEQ, token.GTR, token.LEQ:
+		return n == 0
+	case token.LSS, token.GEQ:
+		return n == 1
 	}
 	return false
 }
